@@ -131,10 +131,16 @@ def pipeline(ctx, prop):
     devs = deviation_schedules(ctx, names)
     for name, h, inv in devs:
         scheds.append(sched("NP21", h, DEV_REB.get(name, 2))); labels.append("dev:" + name)
+        # which member the code treats specially (round-robin order, i.e. who is left without a partition) depends on the random
+        # member ids, not on the model's choice: also replay the counterexample with its last request sent by each other member
+        last = h[-1]
+        if last.get("c"):
+            for other in sorted({x["c"] for x in h if x.get("c")} - {last["c"]}):
+                scheds.append(sched("NP21", h[:-1] + [dict(last, c=other)], DEV_REB.get(name, 2))); labels.append("dev:%s~%s" % (name, other))
     sims = simulations(ctx, quick)
     for cfg, h in sims:
         scheds.append(sched("NP32", h)); labels.append("sim:" + cfg.split(".")[0])
-    ctx.log("%d schedules (%d deviation counterexamples, %d simulated)" % (len(scheds), len(devs), len(sims)))
+    ctx.log("%d schedules (%d deviation counterexamples + %d member variants, %d simulated)" % (len(scheds), len(devs), len(scheds) - len(devs) - len(sims), len(sims)))
     rows = harness(ctx, scheds, "main")
     runs = split(rows)
     if len(runs) != len(scheds):
